@@ -8,6 +8,8 @@ Streams (all driven against the real `dissect.cobaltstrike.client.HttpBeaconClie
   loop   registrations, then the REAL `_beacon_loop` over scripted get_task() results (trace + final task_map)
   lspec  same lines, compared with the declarative specification (Lean `specStep`)
   gh     registrations, then get_handlers(k) repeatedly (+ aliasing check on the returned list)
+  hist   a history on ONE client object (assign sleeptime/jitter, run() again, get_sleep_time, get_handlers, loop
+         iterations, registrations, identity reads, interleaved): every answer must be the stateless one
 """
 from __future__ import annotations
 
@@ -39,6 +41,8 @@ STREAMS = {
     "sleep": {"relevant": True, "desc": "get_sleep_time() in exact arithmetic, uniform draw scripted"},
     "loop": {"relevant": True, "desc": "registrations then the real _beacon_loop over scripted tasks: invocation trace, outcome, final task_map"},
     "lspec": {"relevant": True, "desc": "same, against the declarative specification"},
+    "hist": {"relevant": True, "desc": "a history on ONE client object: attribute assignments, repeated run(), get_sleep_time, get_handlers, "
+                                       "loop iterations and registrations interleaved; every answer must be the stateless one"},
     "gh": {"relevant": True, "desc": "get_handlers(k) repeatedly: returned lists, no aliasing, final task_map"},
 }
 TRUSTED = [
@@ -391,6 +395,23 @@ def gen(tier, rng, shard, nshards):
         regs, cmds = rand_regs(rng, gh=True)
         keys = rand_tasks(rng, cmds, gh=True)
         yield "gh", f"gh {len(regs)} " + " ".join(regs + [keys])
+    # ---- histories on one client object (nothing may be cached between calls)
+    hfixed = [
+        "hist S60000 J50 U1/1 S1000 J10 U1/1 U0/1 U1/2",
+        "hist U1/2 J10 U1/2 S100 U1/2 S200 U1/2 J20 U1/2",
+        "hist " + hist_run_token(rng, 4, 60000, 50, "pc", "user", "p.exe") + " U1/1 I " + hist_run_token(rng, 10, 1000, 10, "pc2", "ü€", "q.exe") + " U1/1 I",
+        "hist " + hist_run_token(rng, 4, 60000, 50, "pc", "user", "p.exe") + " TF3 S1000 J10 U1/1 TTn U1/2",
+        "hist " + hist_run_token(rng, 4, 1000, 0, "pc", "user", "p.exe") + " I " + hist_run_token(rng, (1 << 32) + 5, 1000, 0, "pc", "user", "p.exe") + " I "
+        + hist_run_token(rng, -3, 5, 5, "pc", "user", "p.exe") + " I U1/1 " + hist_run_token(rng, 8, 7, 7, "a", "\ud800", "p") + " I U1/1",
+        "hist S1000 J0 G3 h/i3/35 G3 TF3 k/111.110.95.100.105.101/67 G3 TF3 a/111.110.95.100.105.101/96 G3 TF3 c/131 G4 TF4",
+        "hist TF3 G3 c/35 TF3 S5 TF3 J5 TF3 TFn TTn",
+    ]
+    for l in hfixed:
+        if mine():
+            yield "hist", l
+    for _ in range((30000 if thorough else 5000) // nshards):
+        yield "hist", "hist " + " ".join(rand_history(rng))
+
     # every member value once: the generated name table against the real lookup
     for v in VALID + [0, -1, 103, 1 << 32]:
         if mine():
@@ -459,49 +480,56 @@ def parse_key(t):
     return None if t == "n" else int(t)
 
 
-def build_client(regs, trace):
-    """dynamic subclass + registrations; returns (client, regerrs)"""
+def new_client(trace):
+    """a dynamic subclass of the real client (send_callback stubbed) and one instance of it"""
 
     def send_callback(self, callback_id, data):
         trace.append(f"s{callback_id}")
 
     cls = type("ScriptedClient", (_client.HttpBeaconClient,), {"send_callback": send_callback})
-    cl = cls()
-    cache = {}
-    errs = []
-    for r in regs:
-        f = r.split("/")
-        try:
-            if f[0] == "h":
-                a = f[1]
-                if a == "n":
-                    arg = None
-                elif a == "p":
-                    arg = "sleep"
-                elif a[0] == "i":
-                    arg = int(a[1:])
-                elif a[0] == "e":
-                    arg = BC(int(a[1:]))
-                elif a[0] == "v":
-                    arg = types.SimpleNamespace(value=parse_key(a[1:]))
-                h = make_handler(int(f[2]), trace, cache, "plain")
-                assert cl.handle(arg)(h) is h
-            elif f[0] == "r":
-                cl.register_task(parse_key(f[1]), make_handler(int(f[2]), trace, cache, "plain"))
-            elif f[0] == "c":
-                h = make_handler(int(f[1]), trace, cache, "plain")
-                assert cl.catch_all()(h) is h
-            elif f[0] == "a":
-                nm = "".join(chr(int(x)) for x in f[1].split(".") if x)
-                setattr(cl, nm, make_handler(int(f[2]), trace, cache, "plain"))
-            elif f[0] == "k":
-                nm = "".join(chr(int(x)) for x in f[1].split(".") if x)
-                setattr(cls, nm, make_handler(int(f[2]), trace, cache, "method"))
-            else:
-                raise RuntimeError("bad reg " + r)
-            errs.append(".")
-        except AttributeError:
-            errs.append("A")
+    return cls, cls(), {}
+
+
+def apply_reg(cls, cl, r, trace, cache):
+    """one registration on the real client; '.' or 'A' (AttributeError raised by the decorator)"""
+    f = r.split("/")
+    try:
+        if f[0] == "h":
+            a = f[1]
+            if a == "n":
+                arg = None
+            elif a == "p":
+                arg = "sleep"
+            elif a[0] == "i":
+                arg = int(a[1:])
+            elif a[0] == "e":
+                arg = BC(int(a[1:]))
+            elif a[0] == "v":
+                arg = types.SimpleNamespace(value=parse_key(a[1:]))
+            h = make_handler(int(f[2]), trace, cache, "plain")
+            assert cl.handle(arg)(h) is h
+        elif f[0] == "r":
+            cl.register_task(parse_key(f[1]), make_handler(int(f[2]), trace, cache, "plain"))
+        elif f[0] == "c":
+            h = make_handler(int(f[1]), trace, cache, "plain")
+            assert cl.catch_all()(h) is h
+        elif f[0] == "a":
+            nm = "".join(chr(int(x)) for x in f[1].split(".") if x)
+            setattr(cl, nm, make_handler(int(f[2]), trace, cache, "plain"))
+        elif f[0] == "k":
+            nm = "".join(chr(int(x)) for x in f[1].split(".") if x)
+            setattr(cls, nm, make_handler(int(f[2]), trace, cache, "method"))
+        else:
+            raise RuntimeError("bad reg " + r)
+        return "."
+    except AttributeError:
+        return "A"
+
+
+def build_client(regs, trace):
+    """dynamic subclass + registrations; returns (client, regerrs)"""
+    cls, cl, cache = new_client(trace)
+    errs = [apply_reg(cls, cl, r, trace, cache) for r in regs]
     return cl, "".join(errs) or "-"
 
 
@@ -522,10 +550,9 @@ def split_regs(w):
     return w[1:1 + n], w[1 + n]
 
 
-def run_loop(silent, regs, tasks):
-    trace = []
-    cl, errs = build_client(regs, trace)
-    script = [parse_key(t) for t in tasks[1:].split(",") if t]
+def drive_loop(cl, script, silent, trace):
+    """the REAL _beacon_loop over scripted get_task() results; returns the outcome"""
+    script = list(script)
     epoch = [0]
 
     def get_task():
@@ -540,8 +567,6 @@ def run_loop(silent, regs, tasks):
     cl.get_task = get_task
     cl.silent = silent
     cl.writer = None
-    cl.sleeptime = 1000
-    cl.jitter = 10
     saved_time = _client.time
     _client.time = types.SimpleNamespace(sleep=lambda s: trace.append("z"), time=saved_time.time)
     outcome = "end"
@@ -554,7 +579,256 @@ def run_loop(silent, regs, tasks):
         outcome = "exc:" + ("ValueError" if isinstance(e, ValueError) else type(e).__name__)
     finally:
         _client.time = saved_time
+    return outcome
+
+
+def run_loop(silent, regs, tasks):
+    trace = []
+    cl, errs = build_client(regs, trace)
+    cl.sleeptime = 1000
+    cl.jitter = 10
+    outcome = drive_loop(cl, [parse_key(t) for t in tasks[1:].split(",") if t], silent, trace)
     return trace, outcome, errs, show_view(cl)
+
+
+def scripted_sleep(cl, u):
+    """get_sleep_time() of the real client with random.uniform(a, b) = a + (b - a) * u, as an exact Fraction"""
+    saved = _client.random.uniform
+    _client.random.uniform = lambda a, b: a + (b - a) * u
+    try:
+        return Fraction(cl.get_sleep_time())
+    finally:
+        _client.random.uniform = saved
+
+
+def undot(t):
+    return "".join(chr(int(x)) for x in t.split(".") if x)
+
+
+def run_history(steps):
+    """a history on ONE client object; one answer token per step, then the registry"""
+    trace = []
+    cls, cl, cache = new_client(trace)
+    outs = []
+    for st in steps:
+        c0 = st[0]
+        if c0 == "S":
+            cl.sleeptime = Fraction(int(st[1:]))
+            outs.append(".")
+        elif c0 == "J":
+            cl.jitter = int(st[1:])
+            outs.append(".")
+        elif c0 == "R":
+            f = st.split("/")
+            try:
+                cl.run(bconfig(), dry_run=True, beacon_id=int(f[1]), sleeptime=Fraction(int(f[2])), jitter=int(f[3]),
+                       computer=undot(f[4]), user=undot(f[5]), process=undot(f[6]))
+                outs.append(".")
+            except ValueError:
+                outs.append("E")
+        elif c0 == "U":
+            un, ud = st[1:].split("/")
+            try:
+                t = scripted_sleep(cl, Fraction(int(un), int(ud)))
+                outs.append(f"{t.numerator}/{t.denominator}")
+            except AttributeError:
+                outs.append("A")
+        elif c0 == "G":
+            lst = cl.get_handlers(parse_key(st[1:]))
+            o = show_ids(lst)
+            if any(lst is v for v in cl.task_map.values()):
+                o = "!" + o
+            outs.append(o)
+            lst.append(_Obj(999999, 0, trace))
+        elif c0 == "T":
+            n0 = len(trace)
+            outcome = drive_loop(cl, [parse_key(st[2:])], st[1] == "T", trace)
+            ev = ",".join(trace[n0:]) or "-"
+            if outcome == "end":
+                outs.append(ev)
+            elif outcome == "exc:AttributeError":
+                outs.append(ev + "!A")
+            else:
+                outs.append(ev + "!" + outcome)
+        elif c0 == "I":
+            try:
+                m = cl.metadata
+                assert cl.c2http.beacon_keys.aes_key == cl.c2http.aes_key
+                outs.append(f"{m.bid}:{m.aes_rand.hex()}:{cl.c2http.aes_key.hex()}:{cl.c2http.hmac_key.hex()}:{m.info.hex()}")
+            except AttributeError:
+                outs.append("A")
+        else:
+            outs.append(apply_reg(cls, cl, st, trace, cache))
+    return " ".join(outs) + " " + show_view(cl)
+
+
+def expected_history(steps):
+    """independent plain-Python expectation for a history, plus the band verdicts of its get_sleep_time steps"""
+    s = j = None
+    ident = None
+    regs = []
+    outs = []
+    band_ok = True
+    for st in steps:
+        c0 = st[0]
+        if c0 == "S":
+            s = int(st[1:])
+            outs.append(".")
+        elif c0 == "J":
+            j = int(st[1:])
+            outs.append(".")
+        elif c0 == "R":
+            f = st.split("/")
+            bid = expected_bid(int(f[1]))
+            try:
+                full = (undot(f[4]) + "\t" + undot(f[5]) + "\t" + undot(f[6])).encode()
+            except ValueError:
+                full = None
+            if bid is None or full is None:
+                outs.append("E")
+                continue
+            acc = b""
+            for ch in full.decode():
+                e = ch.encode()
+                if len(acc) + len(e) > 51:
+                    break
+                acc += e
+            ar = _random.Random(bid ^ 0xACCE55ED).getrandbits(128).to_bytes(16, "big")
+            dg = hashlib.sha256(ar).digest()
+            ident = f"{bid}:{ar.hex()}:{dg[:16].hex()}:{dg[16:].hex()}:{acc.hex()}"
+            s, j = int(f[2]), int(f[3])
+            outs.append(".")
+        elif c0 == "U":
+            un, ud = st[1:].split("/")
+            u = Fraction(int(un), int(ud))
+            if s is None or j is None:
+                outs.append("A")
+                continue
+            t = s - u * Fraction(s * j, 100)
+            outs.append(f"{t.numerator}/{t.denominator}")
+        elif c0 in "GT":
+            reg, attr, _ = expected_registry(regs)
+            if c0 == "G":
+                hs = expected_handlers(reg, attr, parse_key(st[1:]))
+                outs.append(".".join(str(c // 32) for c in hs) or "~")
+            else:
+                ev, _, _ = expected_dispatch(st[1] == "T", regs, "t" + st[2:])
+                if s is None or j is None:
+                    ev = ",".join(ev.split(",")[:-1]) or "-"
+                    ev += "!A"
+                outs.append(ev)
+        elif c0 == "I":
+            outs.append(ident or "A")
+        else:
+            outs.append("A" if st.startswith("h/p/") else ".")
+            regs.append(st)
+    return " ".join(outs) + " " + expected_registry(regs)[2]
+
+
+def history_band_ok(steps, out):
+    """every get_sleep_time answer lies in the band of the settings current at that step"""
+    s = j = None
+    toks = out.split(" ")
+    for st, o in zip(steps, toks):
+        c0 = st[0]
+        if c0 == "S":
+            s = int(st[1:])
+        elif c0 == "J":
+            j = int(st[1:])
+        elif c0 == "R" and o == ".":
+            f = st.split("/")
+            s, j = int(f[2]), int(f[3])
+        elif c0 == "U" and "/" in o and s is not None and j is not None:
+            un, ud = st[1:].split("/")
+            u = Fraction(int(un), int(ud))
+            n, d = o.split("/")
+            t = Fraction(int(n), int(d))
+            if s >= 0 and 0 <= j <= 100 and 0 <= u <= 1 and not (Fraction(s) * (1 - Fraction(j, 100)) <= t <= s):
+                return False
+    return True
+
+
+def hist_run_token(rng, x, s, j, comp, user, proc):
+    b = expected_bid(x)
+    if b is None:
+        tail = "n//"
+    else:
+        ar = _random.Random(b ^ 0xACCE55ED).getrandbits(128).to_bytes(16, "big")
+        tail = f"{b}/{ar.hex()}/{hashlib.sha256(ar).hexdigest()}"
+    return f"R/{x}/{s}/{j}/{name_tok(comp)}/{name_tok(user)}/{name_tok(proc)}/{tail}"
+
+
+def rand_history(rng):
+    n = rng.choice([2, 3, 3, 4, 4, 5, 6, 7, 8, 8, 12])
+    cmds = POOL_CMDS[: rng.choice([1, 2, 3])]
+    steps = []
+    hid = [0]
+    prev = []
+
+    def one_reg():
+        hid[0] += 1
+        if prev and rng.random() < 0.15:
+            hc = rng.choice(prev)
+        else:
+            hc = rand_hcode(rng, hid[0])
+            prev.append(hc)
+        r = rng.random()
+        if r < 0.35:
+            return f"h/{rng.choice(['i', 'e'])}{rng.choice(cmds)}/{hc}" if rng.random() < 0.8 else f"h/{rng.choice(['n', 'p', 'i9999', 'v3'])}/{hc}"
+        if r < 0.5:
+            return f"r/{rng.choice([str(rng.choice(cmds)), '9999', 'n', '-1'])}/{hc}"
+        if r < 0.65:
+            return f"c/{hc}"
+        nm = rng.choice([on_name(rng.choice(cmds)), on_name(rng.choice(cmds)), "on_catch_all", "on_empty_task", "on_unknown_9999"])
+        return f"{rng.choice('ak')}/{name_tok(nm)}/{hc}"
+
+    def sleep_params():
+        return (rng.choice([0, 1, 59, 1000, 60000, 60000, 86400000, rng.randrange(0, 10 ** 6), -5]),
+                rng.choice([0, 10, 37, 50, 90, 100, rng.randrange(0, 101), 150]))
+
+    def draw():
+        ud = rng.choice([1, 1, 2, 3, 10, rng.randrange(1, 1000)])
+        return rng.choice(["0/1", "1/1", "1/2", f"{rng.randrange(0, ud + 1)}/{ud}"])
+
+    def run_tok():
+        x = rng.choice([rng.randrange(0, 1 << 31), rng.randrange(0, 1 << 31), 4, 5, (1 << 32) + 4, -(1 << 32) + 4, (1 << 31) + 2, -2, rng.randrange(-(1 << 33), 1 << 34)])
+        s, j = sleep_params()
+        names = [rand_name(rng, 12) for _ in range(3)] if rng.random() < 0.3 else ["pc" + str(rng.randrange(10)), rng.choice(["user", "ü€", "𝔘" * 14]), "p.exe"]
+        return hist_run_token(rng, x, s, j, *names)
+
+    if rng.random() < 0.25:
+        # template: observe, change exactly what the observation depends on, observe again
+        k = rng.choice([str(rng.choice(cmds)), "9999", "n"])
+        nm = "on_empty_task" if k == "n" else (on_name(int(k)) if int(k) in VALID else "on_unknown_" + k)
+        obs = lambda: rng.choice(["G" + k, "TT" + k, "TF" + k])
+        steps += [f"S{sleep_params()[0]}", f"J{sleep_params()[1]}", "U" + draw(), obs()]
+        for _ in range(rng.randrange(1, 4)):
+            hid[0] += 1
+            hc = rand_hcode(rng, hid[0])
+            key_arg = "n" if k == "n" else "i" + k
+            steps.append(rng.choice([f"h/{key_arg}/{hc}", f"r/{k}/{hc}", f"a/{name_tok(nm)}/{hc}", f"k/{name_tok(nm)}/{hc}",
+                                     f"c/{hc}", f"a/{name_tok('on_catch_all')}/{hc}", rng.choice([f"S{sleep_params()[0]}", f"J{sleep_params()[1]}"])]))
+            steps += [obs(), "U" + draw()]
+        return steps
+    for _ in range(n):
+        r = rng.random()
+        if r < 0.14:
+            steps.append(f"S{sleep_params()[0]}")
+        elif r < 0.24:
+            steps.append(f"J{sleep_params()[1]}")
+        elif r < 0.38:
+            steps.append(run_tok())
+        elif r < 0.62:
+            steps.append("U" + draw())
+        elif r < 0.72:
+            steps.append("G" + rng.choice([str(rng.choice(cmds)), str(rng.choice(cmds)), "n", "9999", "-1"]))
+        elif r < 0.82:
+            steps.append("T" + rng.choice("TF") + rng.choice([str(rng.choice(cmds)), str(rng.choice(cmds)), "n", "9999"]))
+        elif r < 0.88:
+            steps.append("I")
+        else:
+            steps.append(one_reg())
+    return steps
 
 
 def impl(stream, line):
@@ -614,6 +888,8 @@ def impl(stream, line):
         if stream == "lspec":
             return f"{ev} {outcome}"
         return f"{ev} {outcome} {errs} {view}"
+    if stream == "hist":
+        return run_history(w[1:])
     if stream == "gh":
         regs, keys = split_regs(w[1:])
         trace = []
@@ -765,6 +1041,10 @@ def oracle(stream, line, out):
         if stream == "loop":
             good = good and f[3] == view
         return good
+    if stream == "hist":
+        if out.startswith("exc "):
+            return False
+        return out == expected_history(w[1:]) and history_band_ok(w[1:], out)
     if stream == "gh":
         regs, keys = split_regs(w[1:])
         if out.startswith("exc "):
@@ -798,6 +1078,9 @@ def nontrivial(stream, line, out):
         return "c" in out.split()[0]
     if stream == "gh":
         return any(ch.isdigit() for ch in out.split()[0])
+    if stream == "hist":
+        kinds = {t[0] for t in w[1:]}
+        return len(kinds) >= 2 and any(c.isdigit() for c in out)
     return True
 
 
@@ -814,6 +1097,12 @@ def shrink(stream, line):
         for i in range(len(items)):
             t2 = items[:i] + items[i + 1:]
             yield " ".join(w[:off] + [str(n)] + regs + ["t" + ",".join(t2)])
+        return
+    if stream == "hist":
+        steps = w[1:]
+        for i in range(len(steps)):
+            if len(steps) > 1:
+                yield " ".join(["hist"] + steps[:i] + steps[i + 1:])
         return
     if stream == "run":
         for cand in C.shrink_tokens(" ".join(w[:5])):
